@@ -482,8 +482,9 @@ func (f *Frame) execInstr(st *State, in ssa.Instruction) *State {
 		ks := env.SortOf(m.Key())
 		emptyDom := Term{fmt.Sprintf("((as const (Array %s Bool)) false)", ks), ArraySort(ks, SBool)}
 		st.SetHeap(dn, Store(st.Heap(vc, dn, ds), ref, emptyDom))
-		_ = vn
-		_ = vs
+		es := env.SortOf(m.Elem())
+		emptyVal := Term{fmt.Sprintf("((as const (Array %s %s)) %s)", ks, es, env.Zero(m.Elem()).S), ArraySort(ks, es)}
+		st.SetHeap(vn, Store(st.Heap(vc, vn, vs), ref, emptyVal))
 		f.regs[x] = Value{T: ref}
 	case *ssa.MakeSlice:
 		f.execMakeSlice(st, x)
@@ -753,11 +754,9 @@ func (f *Frame) execLookup(st *State, x *ssa.Lookup) {
 	dn, vn, ds, vs := env.mapHeaps(x.X.Type())
 	dom := Select(Select(st.Heap(vc, dn, ds), base), idx)
 	val := Select(Select(st.Heap(vc, vn, vs), base), idx)
-	// reading a nil map yields the zero value
-	okT := And(Not(Eq(base, IntLit(0))), dom)
-	res := Ite(okT, val, env.Zero(m.Elem()))
-	rv := vc.freshConst("lk", res.Sort)
-	vc.assumeIn(st, Eq(rv, res))
+	// absent keys (and the nil map) hold the zero value in the model (mapWF)
+	okT := dom
+	rv := val
 	if !isStruct(m.Elem()) {
 		f.factsOf(st, rv, m.Elem())
 	}
